@@ -31,6 +31,15 @@ def run(ctx):
     writer_board(ctx, F, em)
     writer_fields(ctx, F, em)
     reader(ctx, F)
+    # re-import must give the same en-passant file (and hash): importer and Game::push record it under the same condition
+    from . import p04
+    before, nv = len(ctx.instances), len(ctx.violations)
+    p04.rule_k7(ctx, F)
+    for i in ctx.instances[before:]:
+        i["rule"] = "C11.T6(" + i["rule"] + ")"
+    for v in ctx.violations[nv:]:
+        v["rule"] = "C11.T6(" + v["rule"] + ")"
+        v["key"] = "C11.T6|" + v["key"]
 
 
 def t1_letters(ctx, F, D):
